@@ -281,23 +281,50 @@ theorem take_eq (rows : List α) (idxs : List Int) :
   unfold take Gen.Frame.takeTest
   rfl
 
+/-- The limit handed to the compiled collector: `-1` (all rows) for `None`, a negative limit or one at
+or beyond the row count; the limit itself otherwise. -/
+theorem passedLimit_eq (n : Nat) (limit : Option Int) :
+    passedLimit n limit = match limit with
+      | none => -1
+      | some l => if l < 0 ∨ l ≥ n then -1 else l := by
+  unfold passedLimit effLimit Gen.Frame.collectClampTest Gen.Frame.collectClampValue Gen.Frame.collectNegTest
+    Gen.Frame.collectAllValue
+  cases limit with
+  | none =>
+    simp only
+    by_cases h : (-1 : Int) ≥ n
+    · simp [h]
+    · simp [h]
+  | some l =>
+    simp only
+    by_cases h : l < 0
+    · simp only [h, if_true, true_or]
+      by_cases h2 : (-1 : Int) ≥ n
+      · simp [h2]
+      · simp [h2]
+    · simp only [h, if_false, false_or]
+
 theorem limitRows_eq (n : Nat) (limit : Option Int) :
     limitRows n limit = match limit with
       | none => n
       | some l => if l < 0 then n else min l.toNat n := by
-  unfold limitRows effLimit Gen.Frame.collectTruncTest Gen.Frame.collectNegTest Gen.Frame.collectAllValue
+  unfold limitRows
+  rw [passedLimit_eq]
+  unfold Gen.Frame.collectTruncTest
   cases limit with
   | none => simp
   | some l =>
     simp only
     by_cases h : l < 0
-    · simp only [h, if_true]; simp
-    · simp only [h, if_false]
-      by_cases h2 : l < n
-      · have : 0 ≤ l ∧ l < (n : Int) := ⟨by omega, h2⟩
-        simp only [ge_iff_le, this, and_self, if_true]; omega
-      · have : ¬ (0 ≤ l ∧ l < (n : Int)) := by omega
-        simp only [ge_iff_le, this, if_false]; omega
+    · simp only [h, if_true, true_or]; simp
+    · simp only [h, if_false, false_or]
+      by_cases h2 : l ≥ n
+      · simp only [h2, if_true]
+        have : ¬ ((-1 : Int) ≥ 0 ∧ (-1 : Int) < n) := by omega
+        simp only [this, if_false]; omega
+      · simp only [h2, if_false]
+        have : l ≥ 0 ∧ l < (n : Int) := by omega
+        simp only [this, and_self, if_true]; omega
 
 theorem pyRange_simple (n size : Nat) (hs : 0 < size) :
     pyRange 0 (n : Int) (size : Int) = (List.range ((n + size - 1) / size)).map fun (j : Nat) => ((j * size : Nat) : Int) := by
